@@ -1390,6 +1390,13 @@ func (p *parser) parseLitMatcher(lit *litMatcher) (any, bool) {
 	// {{ end }} ==template==
 	start := p.pt
 	for _, want := range lit.val {
+		if p.pt.rn == utf8.RuneError && p.pt.w == 0 {
+			// EOF - see utf8.DecodeRune: the end of the input is no rune,
+			// not even for a literal that contains U+FFFD
+			p.failAt(false, start.position, lit.want)
+			p.restore(start)
+			return nil, false
+		}
 		cur := p.pt.rn
 		if lit.ignoreCase {
 			cur = unicode.ToLower(cur)
